@@ -68,13 +68,16 @@ def gen_case(r):
     return fixed, decl
 
 
-def go_function(name, targets, decl):
+def go_function(name, targets, decl, alias=False):
+    """alias: every pointer pN points to the re-assignable variable kN when there is one (a store through the pointer changes the variable)"""
     lines = []
-    for v in sorted(decl):
+    for v in sorted(decl, key=lambda x: (x[0] == "p", x)):          # pointers last: they may point to a variable declared before them
         mut = decl[v]
         kind = v[0]
         idx = int(v[1:])
         init = {"p": "new(uint64)", "g": "make(map[uint64]uint64)", "k": "uint64(%d)" % (idx * 2), "s": "&T2{x: %d, y: %d}" % (idx, idx + 1)}[kind]
+        if kind == "p" and alias and decl.get("k%d" % idx):
+            init = "&k%d" % idx
         ty = {"p": "*uint64", "g": "map[uint64]uint64", "k": "uint64", "s": "*T2"}[kind]
         if mut:
             lines.append("\tvar %s %s = %s" % (v, ty, init))
@@ -82,7 +85,7 @@ def go_function(name, targets, decl):
             lines.append("\t%s := %s" % (v, init))
     # pointers hold small numbers that are also map keys, so that `g[*p]`-like dependencies matter; here: *p0 = 0, *p1 = 1
     for v in sorted(decl):
-        if v[0] == "p":
+        if v[0] == "p" and not (alias and decl.get("k%d" % int(v[1:]))):
             lines.append("\t*%s = %d" % (v, int(v[1:])))
     lhs = []
     for t in targets:
@@ -162,7 +165,10 @@ def run(seed, n, scratch):
         cases.append((t, d))
     fns = []
     for i, (t, d) in enumerate(cases):
-        fns.append(("t%d" % i, t, go_function("t%d" % i, t, d)))
+        fns.append(("t%d" % i, t, go_function("t%d" % i, t, d, alias=(i % 2 == 1))))
+    # the directed cases in both variants
+    for j, (t, d) in enumerate(cases[:len(directed)]):
+        fns.append(("u%d" % j, t, go_function("u%d" % j, t, d, alias=(j % 2 == 0))))
     src = "package p\n\n" + STRUCT + "\n" + "\n".join(x for x in RESULTS.values() if x) + "\n" + "\n".join(f[2] for f in fns)
     runner = [gogen.PRINTER, "func RunAll() {"] + ['\tcall("%s#0", func() string { return show(%s()) })' % (f[0], f[0]) for f in fns] + ["}"]
     files = {"p/p.go": src, "p/run.go": "\n".join(runner), "cmd/main.go": "package main\n\nimport \"example.com/m/p\"\n\nfunc main() {\n\tp.RunAll()\n}\n"}
@@ -181,10 +187,11 @@ def run(seed, n, scratch):
         accepted = name not in rejected
         stats["tuple_accepted" if accepted else "tuple_rejected"] += 1
         stats["tuple_guard_true"] += g == "guard true"
-        if accepted != (g == "guard true"):
+        if accepted and name in mism:
+            # (whatever the model's guard says: an accepted statement whose translation computes something else is a counterexample)
+            bad.append({"kind": "semantics", "targets": t, "go_source": fsrc, "go": mism[name]["go"], "gooselang": mism[name]["gl"],
+                        "emitted": k4.emitted_def(res["text"], name), "model_guard": g})
+        elif accepted != (g == "guard true"):
             bad.append({"kind": "guard", "targets": t, "go_source": fsrc, "model_guard": g, "goose_accepts": accepted,
                         "emitted": k4.emitted_def(res["text"], name), "go_result": res["native"].get(name + "#0")})
-        elif accepted and name in mism:
-            bad.append({"kind": "semantics", "targets": t, "go_source": fsrc, "go": mism[name]["go"], "gooselang": mism[name]["gl"],
-                        "emitted": k4.emitted_def(res["text"], name)})
     return stats, bad
